@@ -85,6 +85,12 @@ theorem checkExactChain_sound_from_zero (m : Model) (hv : Valid m) (τ : Rat) (h
     (by intro b _; simp [env, lmax, dot_vzero, expectimax]) hc b hb
   simpa using this
 
+/-- a two-state, two-action, one-observation POMDP on which the checker accepts a one-step value function with its certificates
+    (the hypotheses of `checkExactChain_sound_from_zero` are satisfiable; test on literals) -/
+def exCover : Model := ⟨2, 2, 1, fun s _ s1 => if s = s1 then 1 else 0, fun s a => if s = a then 1 else 0, fun _ _ _ => 1, 1/2⟩
+
+example : checkExactChain exCover 0 [vzero 2] [[#[1, 0], #[0, 1]]] [fun i => if i = 0 then [1, 0] else [0, 1]] = true := by decide +kernel
+
 /-! ## (2) weakBoundDistance -/
 
 theorem closestAcc_attained (n : Nat) (nv : Vec) : ∀ (l : List Vec) (c : Option Rat) (x : Rat),
